@@ -172,8 +172,11 @@ def apply_fn_sections(s, fnsec, item_lo, item_hi, log, copies, skip=frozenset())
         def _ren(sec):
             t = Section(sec.kind, sec.arg, sec.lineno, sec.src)
             body = '\n'.join(sec.body)
-            for a, b in renames:
-                body = re.sub(r'(?<![A-Za-z0-9_])%s(?![A-Za-z0-9_])' % re.escape(a), b, body)
+            # simultaneous substitution (two passes through unique placeholders), so that swapped names do not collide
+            for i_, (a, b) in enumerate(renames):
+                body = re.sub(r'(?<![A-Za-z0-9_])%s(?![A-Za-z0-9_])' % re.escape(a), '\x00P%d\x00' % i_, body)
+            for i_, (a, b) in enumerate(renames):
+                body = body.replace('\x00P%d\x00' % i_, b)
             t.body = body.split('\n')
             t.subs = sec.subs
             return t
